@@ -472,12 +472,13 @@ CHECKS["C01"] = {
     "explanation": "C01 is a whole-cluster composition property. What is decided here, by the solver on real code, is the last-mile chain of one node under assumptions that are exactly other properties of this list: real parsigdb.MemDB -> real sigagg.Aggregator (ideal BLS plugged in through tbls.SetImplementation) -> recording broadcaster, fed every arrival sequence of k partial signatures in which honest shares sign the one decided signing root (assumed: C02 agreement, C06 uniqueness) and the Byzantine share signs arbitrary roots with its own share (assumed: C10 admission); plus the arithmetic link lock threshold = consensus quorum > f on the real functions for n=3..32. A regression inside consensus, duty store, partial-signature store or aggregator is caught by C02/C06/C07/C09; this check catches wiring and threshold regressions between them. Since every honest node runs this chain on a subsequence of the same pool, 'all broadcast objects carry the decided root' on one node for all sequences gives the cross-node statement.",
     "quick": [
         {"harness": "VerifC01Arith", "params": {}},
-        {"harness": "VerifC01Chain", "params": {"n": 4, "k": [4, 5, 6]}},
+        {"harness": "VerifC01Chain", "params": {"n": 4, "k": [4, 5, 6], "split": 0}},
+        {"harness": "VerifC01Chain", "params": {"n": 4, "k": [4, 5], "split": 1}},
     ],
     "thorough": [
         {"harness": "VerifC01Arith", "params": {}},
-        {"harness": "VerifC01Chain", "params": {"n": 4, "k": [4, 5, 6, 7, 8]}, "timeout_ms": 300000},
-        {"harness": "VerifC01Chain", "params": {"n": 7, "k": [6, 7, 8]}, "timeout_ms": 300000},
+        {"harness": "VerifC01Chain", "params": {"n": 4, "k": [4, 5, 6, 7, 8], "split": [0, 1]}, "timeout_ms": 300000},
+        {"harness": "VerifC01Chain", "params": {"n": 7, "k": [6, 7, 8], "split": [0, 1]}, "timeout_ms": 300000},
     ],
     "bounds": {
         "quick": "n=4 (t=3, f=1), k<=6 deliveries to one node, share index per delivery symbolic, Byzantine share with a symbolic root per delivery; threshold arithmetic n=3..32 concretely",
